@@ -47,6 +47,49 @@ CHECKS = {
        "of large shards, all 255 deltas; shards hashed before/after.",
   note=TB + " Matrix codec only in this check; Leopard and stream Verify are exercised in C04/C14.",
   design="4/C06"),
+ "C10": dict(
+  technique="Lean 4 invariant proof over all call histories (cache soundness of the inversion trie) + fresh-vs-long-lived correspondence",
+  text="Proof: C10_matrix / C10_fresh / C10_history_independent - for every finite history of Reconstruct/ReconstructData/"
+       "ReconstructSome calls on one modelled encoder, with the inversion tree enabled or disabled, every answer equals the "
+       "cache-free answer (invariant: every trie entry under the key of a presence pattern is invert of that pattern's "
+       "sub-matrix; trie get/insert laws for strictly increasing keys; the key determines the survivor rows). Tie: histories on "
+       "long-lived real encoders (matrix cache on/off, Leopard GF8 locator cache incl. >=64 KiB sets, GF16), every operation "
+       "repeated on a fresh encoder; answers and bytes must agree and equal the original data; all ordered pairs of erasure sets "
+       "on small configurations.",
+  note=TB + " The Leopard GF8 locator cache and the sync.Pool work buffers have no Lean theorem yet: they are decided by the "
+       "fresh-vs-long-lived comparison on collision-biased histories (this found and now guards fix f76f5f8). StreamEncoder's "
+       "block pool is exercised by C11/C14.",
+  design="4/C10"),
+ "C11": dict(
+  technique="Lean 4 theorem over all schedules of a lock-atomic interleaving model + race-detector stress against a sequential oracle",
+  text="Proof: C11_linearizable / C11_matrix / C11_matrix_sound - for every schedule (any interleaving, any number of callers) of "
+       "the model in which lookup and insert are atomic (the code holds the RWMutex there), the cache stays sound and each caller "
+       "obtains exactly the answer it would get alone; afterwards sequential calls still get cache-free answers. Tie: harness "
+       "built with -race; N in {2,8,48} goroutines x GOMAXPROCS in {1,4,16} share one encoder per codec / one StreamEncoder, "
+       "biased so that many miss and insert the same key at once; every answer compared with a sequential fresh-encoder oracle; "
+       "readers hash data shards during Encode/Verify; any race report fails the run.",
+  note=TB + " Partial by nature: the theorem quantifies over schedules of the MODEL; a data race inside a step (unlocked "
+       "access, a kernel reading a buffer another goroutine writes) is only observable by the race detector on sampled "
+       "schedules. Go memory model, sync.Pool, sync.RWMutex modelled not verified. Trusted: ThreadSanitizer runtime.",
+  design="4/C11"),
+ "C12": dict(
+  technique="Lean 4 theorems: permutation-invariance of the xor-fold (EncodeIdx) and the delta rule (Update)",
+  text="Proof: C12_idx_any_order (for every permutation of deliveries from zeroed parity the result is encodeSpec), "
+       "C12_idx_partial / C12_idx_general, C12_update (every subset of changed shards, unchanged ones optionally absent). Tie: "
+       "EncodeIdx in all permutations for d<=5 + seeded orders to d=40, Update over all non-empty subsets for d<=6, sizes around "
+       "perRound/minSplitSize/code-gen thresholds and option sets, mismatching new-shard sizes must be rejected with guard zones "
+       "intact (regression of fix 0ba1869).",
+  note=TB + " Default matrix family in the correspondence (kernels are family-independent).",
+  design="4/C12"),
+ "C13": dict(
+  technique="Lean 4 theorems by list arithmetic: modelled Split (with spare capacity) = specification; Join o Split = id",
+  text="Proof: C13_split_eq_spec (for every input, (d,p), rounding q, and every amount and content of spare capacity the "
+       "modelled Split algorithm equals input++zeros cut into d+p equal shards), C13_shape/C13_perShard (count, equal length, "
+       "multiple of q), C13_content/C13_data_shards/C13_parity_zero, C13_join_split, C13_join_prefix and the error cases. Tie: "
+       "Split of every length 1..3000 x 13 shapes (incl. p=0, d=1, Leopard GF8/GF16 rounding to 64) x spare capacities "
+       "pre-filled with 0xA5, aliasing count, Encode accepts the result; Join with truncations, nil patterns, all outSize classes.",
+  note=TB + " Found and fixed: Join with a negative outSize panicked (fix 33b1873).",
+  design="4/C13"),
  "C17": dict(
   technique="Lean 4 kernel evaluation (decide +kernel) of regenerated table literals against shift-and-reduce arithmetic",
   text="Proof: every entry of the seven static GF(2^8) tables regenerated from galois.go on every run (65,536 products, log/exp/inv, "
